@@ -259,9 +259,9 @@ impl<'a> BtorGen<'a> {
                 // binary, sometimes shorter than the width or with a sign
                 let v = if self.rng.chance(1, 4) { bits.trim_start_matches('0').to_string() } else { bits.clone() };
                 let v = if v.is_empty() { "0".to_string() } else { v };
-                let v = match self.rng.below(10) {
-                    0 => format!("-{v}"),
-                    1 => format!("+{v}"),
+                let v = match self.rng.below(60) {
+                    0..=5 => format!("-{v}"),
+                    6 => format!("+{v}"),
                     _ => v,
                 };
                 // a negative number whose magnitude needs all the bits is still accepted
@@ -269,10 +269,10 @@ impl<'a> BtorGen<'a> {
             }
             5 | 6 => {
                 let d = bits_to_dec(&bits);
-                let v = match self.rng.below(10) {
-                    0 => format!("-{d}"),
-                    1 => format!("+{d}"),
-                    2 => format!("00{d}"),
+                let v = match self.rng.below(60) {
+                    0..=5 => format!("-{d}"),
+                    6 => format!("+{d}"),
+                    7..=12 => format!("00{d}"),
                     _ => d,
                 };
                 self.emit_node("constd", Ty::Bv(w), v)
@@ -362,7 +362,8 @@ impl<'a> BtorGen<'a> {
         } else if k < 70 {
             let op = if self.rng.chance(1, 2) { "eq" } else { "neq" };
             let arr = self.rng.chance(1, 5);
-            if let Some(a) = self.pick_node(|t| matches!(t, Ty::Arr(..)) == arr) {
+            // array equality is decided over the whole index space by the evaluators: small index widths only
+            if let Some(a) = self.pick_node(|t| if arr { matches!(t, Ty::Arr(iw, _) if iw <= 8) } else { matches!(t, Ty::Bv(_)) }) {
                 let b = self.pick_node(|t| t == a.1).unwrap();
                 let r = format!("{} {}", self.opnd(a), self.opnd(b));
                 self.emit_node(op, Ty::Bv(1), r);
@@ -859,7 +860,16 @@ fn width_variant(rng: &mut Rng, old: &str, sort_line: bool) -> String {
 pub fn edge_template(rng: &mut Rng) -> (Vec<String>, &'static str) {
     let w = *rng.pick(&[1u64, 2, 7, 8, 32, 33, 64, 65, 128, 129]);
     let s = |x: &str| x.to_string();
-    let pick = rng.below(44);
+    let pick = rng.below(46);
+    if pick >= 44 {
+        // extension of an array by 0 bits with the array sort as declared sort: accepted although uext/sext are bit-vector operators
+        let (iw, dw) = (rng.range(1, 3), rng.range(1, 5));
+        return (
+            vec![format!("1 sort bitvec {iw}"), format!("2 sort bitvec {dw}"), s("3 sort array 1 2"), format!("4 {} 3 m", rng.pick(&["input", "state"])),
+                 format!("5 {} 3 4 0", rng.pick(&["uext", "sext"])), s("6 input 1 i"), s("7 read 2 5 6"), s("8 output 7")],
+            "ext_array0",
+        );
+    }
     if pick >= 30 && pick < 40 {
         // any operator applied to operands of random kinds (bit-vectors of two widths, booleans, arrays), random declared sort
         let header = vec![s("1 sort bitvec 1"), format!("2 sort bitvec {}", w + 1), format!("3 sort bitvec {}", w + 2), s("4 sort array 2 3"), s("5 sort array 1 2"),
